@@ -144,32 +144,36 @@ def _run_is_reversal(ext, pos):
     return (v - ext[i - 1]) * (ext[j + 1] - v) < 0
 
 
-def reversal_schedule(seq):
-    """Which loads each of the two passes works through.
+def reversal_schedule(seq, passes=2):
+    """Which loads each pass works through (a list of lists).
 
-    The history is 0, seq, seq: its reversals (runs of equal values count once) are processed in
+    The history is 0, seq, seq, ...: its reversals (runs of equal values count once) are processed in
     order.  The last sample of a pass is processed at the end of that pass if it is a reversal both of
     the repeated sequence (.., last, first, ..) and of (.., last, 0, first ..) - pass 1 - resp. of the repeated
-    sequence - pass 2; otherwise it is carried over to the next pass (where it is processed first if it
-    is a reversal there).  The split only matters for the pass number a hysteresis is booked under.
+    sequence - every further pass; otherwise it is carried over to the next pass (where it is processed
+    first if it is a reversal there).  The split only matters for the pass number a hysteresis is booked under.
     """
     n = len(seq)
-    ext = [0.0] + list(seq) + list(seq) + list(seq)
+    ext = [0.0] + list(seq) * (passes + 1)
     t_real = _run_is_reversal([0.0] + list(seq) + list(seq), n)
     t_zero = _run_is_reversal([0.0] + list(seq) + [0.0] + list(seq), n)
     rev = []
-    for pos in range(1, 2 * n + 1):
+    for pos in range(1, passes * n + 1):
         first_of_run = ext[pos - 1] != ext[pos]
         if first_of_run and _run_is_reversal(ext, pos):
             rev.append((pos, ext[pos]))
-    # the run containing the last sample of pass 1 / pass 2
+
     def run_start(pos):
         while pos > 1 and ext[pos - 1] == ext[pos]:
             pos -= 1
         return pos
-    last1, last2 = run_start(n), run_start(2 * n)
-    flush1 = t_real and t_zero
-    flush2 = t_real
-    p1 = [v for pos, v in rev if pos < last1 or (pos == last1 and flush1)]
-    p2 = [v for pos, v in rev if (pos > last1 or (pos == last1 and not flush1)) and (pos < last2 or (pos == last2 and flush2))]
-    return p1, p2
+
+    out = []
+    lower, lower_incl = 0, False          # reversals after `lower` (or at it, if it was carried over)
+    for k in range(1, passes + 1):
+        last = run_start(k * n)
+        flush = (t_real and t_zero) if k == 1 else t_real
+        out.append([v for pos, v in rev
+                    if (pos > lower or (pos == lower and lower_incl)) and (pos < last or (pos == last and flush))])
+        lower, lower_incl = last, not flush
+    return out
